@@ -216,6 +216,7 @@ func (d *Pegnetd) NullifyMintedTokens(ctx context.Context, tx *sql.Tx, height ui
 		fLog.WithFields(log.Fields{
 			"err": err,
 		}).Info("zeroing burn | balances retrieval failed")
+		return err
 	}
 
 	for _, tokenSupply := range MintTotalSupplyMap {
@@ -491,10 +492,16 @@ func (d *Pegnetd) SyncBlock(ctx context.Context, tx *sql.Tx, height uint32) erro
 				// We need to handle the no rates case. Miners could avoid mining this last block.
 				// use the last valid rates from last block
 				rates, err = d.Pegnet.SelectPendingRates(ctx, tx, height-1)
+				if err != nil {
+					return err
+				}
 			}
 
 			if (rates == nil || len(rates) == 0) && height >= config.V202EnhanceActivation {
 				rates, _, err = d.Pegnet.SelectMostRecentRatesBeforeHeight(ctx, tx, height)
+				if err != nil {
+					return err
+				}
 			}
 
 			// If no rates for second time, skip Snapshot logic
@@ -576,6 +583,7 @@ func (d *Pegnetd) SyncBlock(ctx context.Context, tx *sql.Tx, height uint32) erro
 		err := d.DevelopersPayouts(tx, fLog, height, dblock.Timestamp, developersList)
 		if err != nil {
 			fLog.WithFields(log.Fields{"section": "devReward", "reason": "developer reward"}).Tracef("something wrong happend during dev payout execution")
+			return err
 		}
 	}
 
@@ -882,13 +890,17 @@ func (d *Pegnetd) ApplyTransactionBatchesInHolding(ctx context.Context, sqlTx *s
 
 			if currentHeight >= config.V20HeightActivation {
 				if err := txBatch.ValidatePegTx(int32(currentHeight)); err != nil {
-					d.Pegnet.SetTransactionHistoryExecuted(sqlTx, txBatch, -2)
+					if err := d.Pegnet.SetTransactionHistoryExecuted(sqlTx, txBatch, -2); err != nil {
+						return err
+					}
 					continue
 				}
 			}
 
 			if err := txBatch.Validate(int32(currentHeight)); err != nil {
-				d.Pegnet.SetTransactionHistoryExecuted(sqlTx, txBatch, -2)
+				if err := d.Pegnet.SetTransactionHistoryExecuted(sqlTx, txBatch, -2); err != nil {
+					return err
+				}
 				continue
 			}
 			isReplay, err := d.Pegnet.IsReplayTransaction(sqlTx, txBatch.Entry.Hash)
@@ -909,7 +921,9 @@ func (d *Pegnetd) ApplyTransactionBatchesInHolding(ctx context.Context, sqlTx *s
 			if err != nil { // Likely a db error
 				return err
 			} else if rejectCode < 0 { // Tx rejected
-				d.Pegnet.SetTransactionHistoryExecuted(sqlTx, txBatch, rejectCode)
+				if err := d.Pegnet.SetTransactionHistoryExecuted(sqlTx, txBatch, rejectCode); err != nil {
+					return err
+				}
 			} else if err == nil { // Tx accepted
 				if currentHeight < config.V20HeightActivation {
 					// If PegnetConversion limits are on, we process conversions to
@@ -1010,7 +1024,9 @@ func (d *Pegnetd) ApplyTransactionBlock(sqlTx *sql.Tx, eblock *factom.EBlock) er
 			err != pegnet.InsufficientBalanceErr { // Allowed Exception
 			return err
 		} else if err == pegnet.InsufficientBalanceErr {
-			d.Pegnet.SetTransactionHistoryExecuted(sqlTx, txBatch, -1)
+			if err := d.Pegnet.SetTransactionHistoryExecuted(sqlTx, txBatch, -1); err != nil {
+				return err
+			}
 		}
 	}
 	return nil
